@@ -4,14 +4,14 @@ demonstration fails with it and passes without it. On success stores /verif/seed
 import json, os, subprocess, sys, shutil, xml.etree.ElementTree as ET
 
 sid, prop, patch, demo, note = sys.argv[1:6]
-WT = "/tmp/wt_confirm_%s" % sid
+WT = "/root/scratch/wt_confirm_%s" % sid
 def sh(cmd, **kw):
     return subprocess.run(cmd, shell=True, stdout=subprocess.PIPE, stderr=subprocess.STDOUT, **kw)
 sh("git -C /repo worktree remove --force %s" % WT)
 r = sh("git -C /repo worktree add -q --detach %s HEAD" % WT); assert r.returncode == 0, r.stdout
 env = dict(os.environ, PYTHONPATH=WT + "/blackbird_python", PYTHONHASHSEED="0")
 def suite():
-    x = "/tmp/junit_%s.xml" % sid
+    x = "/root/scratch/junit_%s.xml" % sid
     sh("cd %s && /venv/bin/python -m pytest -q -p no:cacheprovider --timeout=900 --continue-on-collection-errors --junitxml=%s" % (WT, x), env=env)
     ok = set()
     for tc in ET.parse(x).iter("testcase"):
@@ -21,11 +21,11 @@ def suite():
     return ok
 base = set(json.load(open("/root/.vp/BASELINE.json"))["stable_pass"])
 try:
-    d0 = sh("/venv/bin/python %s" % demo, env=env, cwd="/tmp")
+    d0 = sh("/venv/bin/python %s" % demo, env=env, cwd="/root/scratch")
     r = sh("git -C %s apply %s" % (WT, patch)); assert r.returncode == 0, r.stdout
     ok = suite()
     missing = sorted(base - ok)
-    d1 = sh("/venv/bin/python %s" % demo, env=env, cwd="/tmp")
+    d1 = sh("/venv/bin/python %s" % demo, env=env, cwd="/root/scratch")
     res = {"suite_baseline_pass_kept": not missing, "missing": missing[:5], "demo_exit_without": d0.returncode, "demo_exit_with": d1.returncode}
     print(sid, res)
     good = (not missing) and d0.returncode == 0 and d1.returncode != 0
